@@ -6,7 +6,7 @@
    yet answered.  anc = the node's ancestry attribute, shown by C09 to be the
    transitive closure of the declared inputs. *)
 From Coq Require Import List Arith ZArith Bool Permutation.
-From DV Require Import Model.Sched Proofs.SchedLib Proofs.SchedBatch.
+From DV Require Import Model.Sched Proofs.SchedLib Proofs.SchedBatch Proofs.SchedExact.
 Import ListNotations.
 
 (* The headline, at the level of the scheduler's own bookkeeping, for EVERY engine
@@ -70,6 +70,30 @@ Proof.
     apply (dispatch_doing_mono c) in E. unfold s in *. rewrite Dg in E. contradiction.
 Qed.
 Print Assumptions C01_full_partial.
+
+(* The property at FULL strength (ghost level), for clean histories
+   (clean_run, Proofs/SchedExact.v: replies only for units in flight, no failed run
+   overlapping an executing dependent on the same target, rebuilds with nothing
+   executing): no unit is released while an ancestor has the same target or the
+   all-targets marker REALLY executing, and an all-targets unit is released only
+   when no ancestor executes anything. *)
+Theorem C01_full_clean : forall c es, clean_run c (init c) es ->
+  let s := fst (run c (init c) es) in
+  active s = true ->
+  exists newms cl k,
+    Permutation cl (cluster s ++ newms) /\
+    k = Nat.min (length cl) (length (workers_sort (workers s))) /\
+    cluster (fst (dispatch c s)) = skipn k cl /\
+    forall m, In m newms -> forall a, In a (anc (gi c (m_job m))) ->
+      ~ executing s a (m_tgt m) /\ ~ executing s a ALL /\
+      (m_tgt m = ALL -> forall u, ~ executing s a u).
+Proof.
+  intros c es Hc s A. destruct (C01_full_partial c es A) as (newms & cl & k & P & Hk & C & M).
+  exists newms, cl, k. repeat (split; [assumption|]).
+  intros m Hm a Ha. apply (M m Hm a Ha). intros u Hu.
+  destruct (clean_boot c es Hc) as (_ & E & _). apply E. apply executing_units. exact Hu.
+Qed.
+Print Assumptions C01_full_clean.
 
 (* REFUTED (open known finding): chain a0 -> a1 -> a2, one target.  a1 is handed to
    worker 1; a0 is requested, released to worker 2 and FAILS: purge removes the
